@@ -109,8 +109,17 @@ def mt_run(seed, prop, i, fault_free, collectors=("copy", "sweep", "swiper"), co
     cg = cfg.choice(list(codegens))
     flags, workers, heap = tb.draw_gc_flags(cfg, gc)
     flags = [f for f in flags if not f.startswith("--max-heap-size") and not f.startswith("--min-heap-size")] + ["--max-heap-size=%dM" % cfg.choice([16, 32])]
+    storm = mm.is_storm(script)
+    if storm:
+        # many collections requested by many threads at once: small young generation, no
+        # verifier (it would dominate the run time)
+        flags = [f for f in flags if not f.startswith("--gc-young-size") and f != "--gc-verify"]
+        if gc == "swiper":
+            flags.append("--gc-young-size=%dM" % cfg.choice([1, 1, 2]))
     faults = tb.draw_faults(cfg, fault_free)
     tb.cap_fault_rates(faults, 300 + len(script), gc, 16, "--gc-verify" in flags)
+    if storm:
+        faults = {"pminor": 0, "pfull": 0, "pfail": faults["pfail"] // 8, "burst": 0}
     t = script[0]
     sim = {"seed": cfg.getrandbits(48), "policy": tb.draw_policy(cfg, t + 2 * workers, 500 + 20 * len(script)), "hot": 0 if fault_free else cfg.choice([0, 300, 3000])}
     if gc == "swiper":
@@ -126,7 +135,7 @@ def mt_run(seed, prop, i, fault_free, collectors=("copy", "sweep", "swiper"), co
         sim["hotsweep"] = max(sim.get("hotsweep", 0), sim["hot"])
     return {"index": i, "exe": ["mtheap", gc, cg, "sim"], "argv": script, "dora_flags": " ".join(flags), "sim": sim,
             "expect": {"rc": 0, "stdout": out, "stderr_empty": True}, "timeout": 300, "fault_free": fault_free,
-            "tags": {"gc": gc, "codegen": cg, "profile": "multithreaded", "threads": t, "workers": workers, "policy": sim["policy"].split(":")[0], "fault_free": fault_free,
+            "tags": {"gc": gc, "codegen": cg, "profile": "garbage-storm" if storm else "multithreaded", "threads": t, "workers": workers, "policy": sim["policy"].split(":")[0], "fault_free": fault_free,
                      "tlab": "off" if "--disable-tlab" in flags else "on", "gc_verify": "--gc-verify" in flags}}
 
 
